@@ -308,7 +308,7 @@ Proof.
     unfold c10_type_id_ok in Hid. apply andb_true_iff in Hid as [_ Hren].
     eapply post_bind; [exact (sw_texp_ok _ _ Ht)|]. intros t Pt. apply post_ret. cbn [c10_sw_decl_ok].
     rewrite (sw_docs_ok _ (docs_line_ok _ Hd)), (sw_prefixed_key _ (ident_keychars _ Hren)), (generics_tok _ Hg), Pt. reflexivity.
-  - apply post_mpanic.
+  - apply post_fail.
 Qed.
 
 Lemma sw_begin_file_bal : bal c10_lex_sw (sw_begin_file cfg).
